@@ -3,6 +3,7 @@ from registry_common import COMMON_ASSUME
 ENTRY = dict(
         title="Event dispatch: ordered callbacks, consistent stored value, once means once",
         design_ref="DESIGN.md section 6 / C13",
+        prop_modules=["C13", "C13Spec"],
         technique="Lean 4 interleaving machine (API calls, 'dispatch task i moves', 'waiter j moves', 'clock advances') with one inductive "
                   "invariant over ALL event lists and ALL callback scripts + trace-inclusion correspondence: a real EventManager with callbacks "
                   "suspended on harness-controlled futures under a virtual-time loop; the Lean driver replays the schedule the harness chose",
@@ -15,7 +16,7 @@ ENTRY = dict(
             "`once_at_most_once` — one subscribe_once registration is awaited at most once; `unsubscribed_not_called_by_later_dispatch` (+ the "
             "once-wrapper variant, + `removed_not_awaited_by_later_dispatch`) — a dispatch that starts after an unsubscribe never awaits that "
             "entry; `data_is_outcome_of_a_dispatch` — stored values and getter results are finals of finished dispatches; `get_returns_at_once`; "
-            "`timed_wait_raises_at_deadline`, `deadline_fires`. The machine models event_manager.py after fix ee9b4d5 (the once-wrapper awaits "
+            "`timed_wait_raises_at_deadline`, `deadline_fires`. `C13.holds` (Props/C13Spec.lean): the executable judge C13.spec over an observation (log with values, snapshots of data, get/wait results with virtual times) holds of every observation of the machine; the harness applies the same judge to the implementation. The machine models event_manager.py after fix ee9b4d5 (the once-wrapper awaits "
             "the callback only if unsubscribe returned True)."),
         level_note="Trusted: Lean kernel; machine <-> event_manager.py tie is differential (trace inclusion on generated histories with the harness "
                    "choosing the schedule); asyncio's ready-queue FIFO order, Event and wait_for are exercised, not modelled (the driver applies FIFO "
@@ -28,6 +29,7 @@ ENTRY = dict(
             "an unsatisfied timed wait raises at that time": "theorem (timed_wait_raises_at_deadline, deadline_fires) + correspondence (asyncio.wait_for / virtual clock)",
             "subscribe_once awaited at most once, every interleaving": "theorem (once_at_most_once)",
             "an unsubscribed callback is awaited by no later dispatch, every interleaving": "theorem (unsubscribed_not_called_by_later_dispatch, unsubscribed_once_not_called_by_later_dispatch)",
+            "the statement as a judge over observations (C13.spec: threading, order, once, stored, getters)": "theorem (C13.holds: every observation of the machine, any scripts, any history of calls / releases / loop runs / clock moves, satisfies C13.spec; clause theorems threading_holds, order_holds, once_holds, stored_holds, getters_hold) + the same executable predicate judged by the Lean driver (c13judge) on every observation of the real EventManager",
             "event_manager.py behaves as the machine": "correspondence (trace inclusion: schedule accepted, same invocation log, data, task states, waiter results and virtual times)",
         },
         assumptions=COMMON_ASSUME + [
